@@ -31,6 +31,7 @@ import (
 	"github.com/ethereum/go-ethereum/consensus/beacon"
 	"github.com/ethereum/go-ethereum/consensus/ethash"
 	"github.com/ethereum/go-ethereum/consensus/misc/eip1559"
+	"github.com/ethereum/go-ethereum/consensus/misc/eip4844"
 	"github.com/ethereum/go-ethereum/core"
 	"github.com/ethereum/go-ethereum/core/rawdb"
 	"github.com/ethereum/go-ethereum/core/txpool/legacypool"
@@ -41,6 +42,7 @@ import (
 	"github.com/ethereum/go-ethereum/miner"
 	"github.com/ethereum/go-ethereum/node"
 	"github.com/ethereum/go-ethereum/p2p"
+	"github.com/ethereum/go-ethereum/params"
 
 	"verif/lib/vrt"
 )
@@ -49,15 +51,20 @@ func main() { vrt.Main("C36", run) }
 
 var forks = []string{"Cancun", "Prague", "Osaka", "Amsterdam"}
 
+var nRegular, nBoundary int // case indices below nRegular: one rule set per node; above: fork-boundary family
+
 func run(r *vrt.Run) {
 	r.Rule("case = node of one rule set (Cancun/Prague/Osaka/Amsterdam) with 6 generated contracts + probe/transient-storage/log/burner/deposit contracts, 1-5 consecutive payloads; before each payload the pools receive 15-90 random transactions of 20 kinds (see package comment) and random payload attributes (timestamp delta, prevrandao, fee recipient, 0-16 withdrawals, beacon root, slot number); built via engine API or miner.BuildPayload; one evaluation per payload; signature = (fork, build path, empty/full, transaction kinds included, skipped classes, which limit stopped filling, withdrawals bucket)")
 	nCases := r.N(24, 1200)
+	nBoundary = r.N(14, 400) // fork-boundary family (boundary.go): cases nCases .. nCases+nBoundary-1
 	if r.Race() {
 		nCases = r.N(3, 60)
+		nBoundary = 0 // value-level family; the race variant samples the regular workload only
 		nBlobs = 2
 		raceBuild = true
 		blockGasLimit = 6_000_000
 	}
+	nRegular = nCases
 	blobs() // KZG material once
 	if v := os.Getenv("VERIF_ONLY"); v != "" {
 		i, _ := strconv.Atoi(v)
@@ -67,7 +74,7 @@ func run(r *vrt.Run) {
 		if r.Race() {
 			workers = 3
 		}
-		vrt.Par(nCases, workers, func(i int) { runCase(r, i) })
+		vrt.Par(nCases+nBoundary, workers, func(i int) { runCase(r, i) })
 		if r.Race() {
 			// the race variant is a small sample of the same workload (coverage obligations are
 			// carried by the default variant; under the race detector the engine API often
@@ -84,6 +91,14 @@ func run(r *vrt.Run) {
 			r.Require("included:probe", 20)
 			r.Require("blocks_gas_limit_reached", 5)
 			r.Require("blocks_with_requests", 3)
+			// fork-boundary family
+			r.Require("boundary_cases", 10)
+			r.Require("blocks_built_last_before_fork", 8)
+			r.Require("blocks_built_first_under_new_fork", 10)
+			r.Require("blocks_built_first_under_new_schedule", 8)
+			r.Require("blocks_built_first_under_new_schedule_with_parent_excess_plus_used_above_old_target", 4)
+			r.Require("blocks_built_first_under_new_schedule_where_schedules_give_different_excess", 3)
+			r.Require("blocks_built_second_under_new_fork", 6)
 		}
 	}
 	r.Assume("oracle = block import (validator + state processor of the same tree) on a second BlockChain instance with its own database, and the engine API status of NewPayload on the building node")
@@ -101,6 +116,8 @@ type ncase struct {
 	src  *txSource
 	log  []string
 	kind map[common.Hash]string // tx hash -> kind
+
+	prevFirst bool // fork-boundary family: the previous block was the first one of a new rule set
 }
 
 func (c *ncase) witness(extra map[string]any) map[string]any {
@@ -124,10 +141,24 @@ func errClass(s string) string {
 
 func runCase(r *vrt.Run, idx int) {
 	rng := r.Rand("case", idx)
-	fork := forks[idx%len(forks)]
-	w := newWorld(rng, fork)
-	c := &ncase{r: r, idx: idx, w: w, kind: map[common.Hash]string{}}
-	c.desc = fmt.Sprintf("fork=%s", fork)
+	var w *world
+	c := &ncase{r: r, idx: idx, kind: map[common.Hash]string{}}
+	if idx < nRegular {
+		fork := forks[idx%len(forks)]
+		w = newWorld(rng, fork)
+		c.desc = fmt.Sprintf("fork=%s", fork)
+	} else {
+		rng = r.Rand("boundary", idx-nRegular)
+		cfg, plan, last := planBoundary(rng, idx-nRegular)
+		if err := cfg.CheckConfigForkOrder(); err != nil {
+			r.Inconclusive("case %d: generated chain configuration is not admissible: %v (%s)", idx, err, plan.desc)
+			return
+		}
+		w = buildWorld(rng, last, cfg, plan)
+		c.desc = plan.desc
+		r.Count("boundary_cases", 1)
+	}
+	c.w = w
 	r.Case("case %d %s start node [VERIF_ONLY=%d]", idx, c.desc, idx)
 
 	n, err := node.New(&node.Config{P2P: p2p.Config{NoDiscovery: true, NoDial: true, MaxPeers: 0}})
@@ -173,6 +204,9 @@ func runCase(r *vrt.Run, idx int) {
 	}
 
 	nPayloads := 1 + rng.Intn(5)
+	if w.bnd != nil {
+		nPayloads = len(w.bnd.ts)
+	}
 	for p := 0; p < nPayloads; p++ {
 		if !c.round(rng, p) {
 			return
@@ -188,10 +222,13 @@ func (c *ncase) round(rng *rand.Rand, p int) bool {
 	r, w, es := c.r, c.w, c.es
 	head := es.BlockChain().CurrentBlock()
 	c.src.baseFee = eip1559.CalcBaseFee(w.config, head)
+	c.src.prague, c.src.osaka = w.config.IsPrague(head.Number, head.Time), w.config.IsOsaka(head.Number, head.Time)
 	// ---- pool content
 	nTx := 15 + rng.Intn(76)
 	if r.Race() {
 		nTx = 10 + rng.Intn(25)
+	} else if w.bnd != nil {
+		nTx = 10 + rng.Intn(51) // a third of them blob transactions: enough to fill the blob space
 	}
 	offered := map[string]int{}
 	rejected := 0
@@ -240,7 +277,11 @@ func (c *ncase) round(rng *rand.Rand, p int) bool {
 		to := []common.Address{w.addrs[rng.Intn(len(w.addrs))], w.gen[rng.Intn(len(w.gen))], common.BytesToAddress(randBytes(rng, 20)), w.authA[0]}[rng.Intn(4)]
 		attrs.Withdrawals = append(attrs.Withdrawals, &types.Withdrawal{Index: uint64(p*16 + i), Validator: uint64(rng.Intn(1000)), Address: to, Amount: uint64(rng.Intn(3)) * uint64(rng.Intn(1_000_000))})
 	}
-	if w.fork == "Amsterdam" {
+	if w.bnd != nil {
+		attrs.Timestamp = w.bnd.ts[p]
+	}
+	gen := apiGen(w.config, attrs.Timestamp) // engine API generation serving this timestamp
+	if gen == 6 {
 		attrs.SlotNumber = &slot
 	}
 	viaEngine := rng.Intn(2) == 0
@@ -256,7 +297,7 @@ func (c *ncase) round(rng *rand.Rand, p int) bool {
 	if viaEngine {
 		fcs := engine.ForkchoiceStateV1{HeadBlockHash: head.Hash(), SafeBlockHash: common.Hash{}, FinalizedBlockHash: common.Hash{}}
 		var resp engine.ForkChoiceResponse
-		if w.fork == "Amsterdam" {
+		if gen == 6 {
 			resp, err = c.api.ForkchoiceUpdatedV4(ctx, fcs, attrs, nil)
 		} else {
 			resp, err = c.api.ForkchoiceUpdatedV3(ctx, fcs, attrs)
@@ -273,12 +314,12 @@ func (c *ncase) round(rng *rand.Rand, p int) bool {
 		default:
 			time.Sleep(time.Duration(50+rng.Intn(400)) * time.Millisecond)
 		}
-		switch w.fork {
-		case "Cancun":
+		switch gen {
+		case 3:
 			env, err = c.api.GetPayloadV3(*resp.PayloadID)
-		case "Prague":
+		case 4:
 			env, err = c.api.GetPayloadV4(*resp.PayloadID)
-		case "Osaka":
+		case 5:
 			env, err = c.api.GetPayloadV5(*resp.PayloadID)
 		default:
 			env, err = c.api.GetPayloadV6(*resp.PayloadID)
@@ -290,7 +331,7 @@ func (c *ncase) round(rng *rand.Rand, p int) bool {
 		r.Count("payloads_via_engine_api", 1)
 	} else {
 		args := &miner.BuildPayloadArgs{Parent: head.Hash(), Timestamp: attrs.Timestamp, FeeRecipient: attrs.SuggestedFeeRecipient, Random: attrs.Random, Withdrawals: attrs.Withdrawals, BeaconRoot: attrs.BeaconRoot, SlotNum: attrs.SlotNumber, Version: engine.PayloadV3}
-		if w.fork == "Amsterdam" {
+		if gen == 6 {
 			args.Version = engine.PayloadV4
 		}
 		payload, err := es.Miner().BuildPayload(ctx, args, false)
@@ -312,7 +353,7 @@ func (c *ncase) round(rng *rand.Rand, p int) bool {
 		}
 		r.Count("payloads_via_miner", 1)
 	}
-	return c.judge(env, attrs, viaEngine, offered)
+	return c.judge(env, attrs, viaEngine, offered, head)
 }
 
 func (c *ncase) stateNonce(a common.Address) uint64 {
@@ -323,7 +364,7 @@ func (c *ncase) stateNonce(a common.Address) uint64 {
 	return st.GetNonce(a)
 }
 
-func (c *ncase) judge(env *engine.ExecutionPayloadEnvelope, attrs *engine.PayloadAttributes, viaEngine bool, offered map[string]int) bool {
+func (c *ncase) judge(env *engine.ExecutionPayloadEnvelope, attrs *engine.PayloadAttributes, viaEngine bool, offered map[string]int, parent *types.Header) bool {
 	r, w, es := c.r, c.w, c.es
 	ctx := context.Background()
 	pl := env.ExecutionPayload
@@ -362,6 +403,10 @@ func (c *ncase) judge(env *engine.ExecutionPayloadEnvelope, attrs *engine.Payloa
 		r.Violation("payload-not-self-consistent:"+errClass(err.Error()), fmt.Sprintf("case %d (%s): the payload returned by the builder does not convert to a block: %v", c.idx, c.desc, err), wit(nil))
 		return false
 	}
+	era := w.fork
+	if w.bnd != nil {
+		era = c.boundaryEvidence(parent, block.Header(), blobCount) // counts what was built, whatever the verdict below
+	}
 	// (1) import on the independent chain
 	if _, err := c.imp.InsertChain(types.Blocks{block}); err != nil {
 		r.Violation("import-rejected:"+errClass(err.Error()), fmt.Sprintf("case %d (%s): block #%d built by the node (%d txs, kinds %v) is rejected by import on an independent chain: %v", c.idx, c.desc, pl.Number, len(txs), included, err), wit(map[string]any{"import_error": err.Error(), "included": included}))
@@ -377,10 +422,11 @@ func (c *ncase) judge(env *engine.ExecutionPayloadEnvelope, attrs *engine.Payloa
 	for i, rq := range env.Requests {
 		reqs[i] = rq
 	}
-	switch w.fork {
-	case "Cancun":
+	gen := apiGen(w.config, pl.Timestamp)
+	switch gen {
+	case 3:
 		st, err = c.api.NewPayloadV3(ctx, *pl, vhashes, attrs.BeaconRoot)
-	case "Prague", "Osaka":
+	case 4, 5:
 		st, err = c.api.NewPayloadV4(ctx, *pl, vhashes, attrs.BeaconRoot, reqs)
 	default:
 		st, err = c.api.NewPayloadV5(ctx, *pl, vhashes, attrs.BeaconRoot, reqs)
@@ -396,7 +442,7 @@ func (c *ncase) judge(env *engine.ExecutionPayloadEnvelope, attrs *engine.Payloa
 	// make it the head
 	fcs := engine.ForkchoiceStateV1{HeadBlockHash: pl.BlockHash}
 	var resp engine.ForkChoiceResponse
-	if w.fork == "Amsterdam" {
+	if gen == 6 {
 		resp, err = c.api.ForkchoiceUpdatedV4(ctx, fcs, nil, nil)
 	} else {
 		resp, err = c.api.ForkchoiceUpdatedV3(ctx, fcs, nil)
@@ -462,7 +508,83 @@ func (c *ncase) judge(env *engine.ExecutionPayloadEnvelope, attrs *engine.Payloa
 	if viaEngine {
 		path = "engine"
 	}
-	sig := fmt.Sprintf("%s/%s/%s/in[%s]/skip%d/limit:%s/wd:%s/req%v", w.fork, path, full, strings.Join(kinds, ","), len(skipped), limit, wd, len(env.Requests) > 0)
+	sig := fmt.Sprintf("%s/%s/%s/in[%s]/skip%d/limit:%s/wd:%s/req%v", era, path, full, strings.Join(kinds, ","), len(skipped), limit, wd, len(env.Requests) > 0)
 	r.Eval(sig)
 	return true
+}
+
+// boundaryEvidence records where a built block of the fork-boundary family lies relative to the
+// rule-set / blob-schedule changes of its chain and whether the schedule-dependent header fields
+// are sensitive to the choice of schedule there (excess / blob fee computed from the same parent
+// under the parent's and under the block's schedule). Evidence only: the verdict is made by judge. Returns the rule-set part of the evaluation signature.
+func (c *ncase) boundaryEvidence(parent, h *types.Header, blobCount int) string {
+	r, cfg, b := c.r, c.w.config, c.w.bnd
+	pf, hf := cfg.LatestFork(parent.Time), cfg.LatestFork(h.Time)
+	era := "B:" + hf.String()
+	if p := int(h.Number.Uint64()); p < len(b.ts) && cfg.LatestFork(b.ts[p]) != hf {
+		r.Count("blocks_built_last_before_fork", 1)
+		era += "/last-before"
+	}
+	switch {
+	case pf != hf:
+		era = "B:" + pf.String() + ">" + hf.String()
+		r.Count("blocks_built_first_under_new_fork", 1)
+		r.Count("transition:"+pf.String()+"->"+hf.String(), 1)
+		if parent.Number.Sign() == 0 {
+			r.Count("blocks_built_first_under_new_fork_on_genesis", 1)
+		}
+		for _, s := range b.stages {
+			if s.gap >= 0 && s.time == h.Time {
+				r.Count("blocks_built_first_under_new_fork_at_exact_fork_time", 1)
+				break
+			}
+		}
+		if parent.RequestsHash == nil && h.RequestsHash != nil {
+			r.Count("blocks_built_first_with_requests_hash", 1)
+		}
+		if parent.BlockAccessListHash == nil && h.BlockAccessListHash != nil {
+			r.Count("blocks_built_first_with_access_list_hash", 1)
+		}
+	case c.prevFirst:
+		r.Count("blocks_built_second_under_new_fork", 1)
+		era += "/second"
+	}
+	c.prevFirst = pf != hf
+
+	old, oldOsaka := b.blobAt(parent.Time)
+	nw, nwOsaka := b.blobAt(h.Time)
+	if old != nw || oldOsaka != nwOsaka {
+		const name = "blocks_built_first_under_new_schedule"
+		r.Count(name, 1)
+		sum := *parent.ExcessBlobGas + *parent.BlobGasUsed
+		cls := "below-old-target"
+		if sum >= uint64(old.Target)*params.BlobTxBlobGasPerBlob {
+			r.Count(name+"_with_parent_excess_plus_used_above_old_target", 1)
+			cls = "above-old-target"
+		}
+		if sum >= uint64(nw.Target)*params.BlobTxBlobGasPerBlob {
+			r.Count(name+"_with_parent_excess_plus_used_above_new_target", 1)
+		}
+		if *parent.BlobGasUsed > 0 {
+			r.Count(name+"_with_parent_blob_gas_used", 1)
+		}
+		if eip4844.CalcExcessBlobGas(cfg, parent, parent.Time) != eip4844.CalcExcessBlobGas(cfg, parent, h.Time) {
+			r.Count(name+"_where_schedules_give_different_excess", 1)
+			cls += "/excess-sensitive"
+		}
+		asOld := types.CopyHeader(h)
+		asOld.Time = parent.Time
+		if h.ExcessBlobGas != nil && eip4844.CalcBlobFee(cfg, asOld).Cmp(eip4844.CalcBlobFee(cfg, h)) != 0 {
+			r.Count(name+"_where_schedules_give_different_blob_fee", 1)
+			cls += "/fee-sensitive"
+		}
+		if blobCount > 0 {
+			r.Count(name+"_with_blobs", 1)
+			if blobCount > old.Max {
+				r.Count(name+"_with_more_blobs_than_old_max", 1)
+			}
+		}
+		era += "/sched:" + cls
+	}
+	return era
 }
